@@ -45,6 +45,7 @@ def check(run: Run, prog: Program, model: Model, tier: str) -> None:
     unroll = 1
     sites: Dict[str, Tuple[str, str, str]] = {}
     bad: Dict[str, Tuple[str, str]] = {}
+    notes: Dict[str, Tuple[str, str]] = {}
     for vis, (ctx, names, d42hook, userhook) in FAMILIES.items():
         for hook, f in model.visit_methods(vis).items():
             st = model.by_hook[hook]
@@ -60,9 +61,9 @@ def check(run: Run, prog: Program, model: Model, tier: str) -> None:
                             if isinstance(t, Term) and t.op == "isinstance" and _is_member(t.args[0]):
                                 label = str(t.args[1])
                                 if any(l.endswith("Schema") for l in label.split("|")):
-                                    bad[f"{e.func}: isinstance(member, {label})"] = (
-                                        e.loc(prog), f"a member schema is tested against schema class {label}: a forwarding custom "
-                                        "member takes the other branch than the built-in it forwards to")
+                                    notes[f"{e.func}: isinstance(member, {label})"] = (
+                                        e.loc(prog), f"a member schema is tested against schema class {label}; not a violation by itself: "
+                                        "both branches may still dispatch through __accept__ (a bypass is reported separately)")
                         elif e.kind == "call" and e.data.get("resolved") and isinstance(e.data.get("callee"), str):
                             callee = e.data["callee"].split(".")[-1]
                             if callee.startswith("visit_") and any(_is_member(a) for a in e.data.get("args", [])):
@@ -76,6 +77,8 @@ def check(run: Run, prog: Program, model: Model, tier: str) -> None:
         c2 = f"{c} #{n + 1}"
         done.add(c2)
         run.holds("ONLY-ACCEPT", c2, site, "member reached through member.__accept__(self, ...)", nontrivial=True)
+    for c, (site, why) in sorted(notes.items()):
+        run.note("ONLY-ACCEPT", c, site, why)
     for c, (site, why) in sorted(bad.items()):
         run.violated("ONLY-ACCEPT", c, site, why,
                      witness="a CustomSchema forwarding to that built-in, placed as this member, behaves differently from the built-in")
@@ -90,7 +93,7 @@ def _dispatch_chain(run: Run, prog: Program, model: Model) -> None:
     accept = model.schema_base.methods.get("__accept__")
     if accept is None:
         raise AnalysisError("Schema.__accept__ not found")
-    for vis in ("Validator", "Substitutor", "Representor", "Generator"):
+    for vis in ("Validator", "SubstitutorValidator", "Substitutor", "Representor", "Generator"):
         ctxf, names, d42hook, userhook = FAMILIES[vis]
         if d42hook not in custom.methods:
             run.violated("DISPATCH-CHAIN", f"CustomSchema.{d42hook}", custom.loc,
@@ -112,11 +115,22 @@ def _dispatch_chain(run: Run, prog: Program, model: Model) -> None:
         paths = it.run_paths(run1)
         construct = f"{vis}: Schema.__accept__ -> visit -> {d42hook}"
         found = None
+        partial_ctx: List[str] = []
         for p in paths:
             for e in p.events:
                 if e.kind == "call" and not e.data.get("resolved") and isinstance(e.data.get("callee"), Term) \
                         and e.data["callee"].op == "getattr":
-                    found = (p, e)
+                    if found is None or any(e.data["kwargs"].get(n) is None for n in names):
+                        found = (p, e)      # prefer a path that drops part of the context
+        bypass = [p for p in paths if p.outcome == "return" and not any(
+            e.kind == "call" and not e.data.get("resolved") and isinstance(e.data.get("callee"), Term) and e.data["callee"].op == "getattr"
+            for e in p.events)]
+        if found is not None and bypass:
+            cond = [("" if b else "not ") + k for k, _, b in bypass[0].facts][-2:]
+            run.violated("DISPATCH-CHAIN", construct + ": bypass", accept.loc,
+                         f"a custom member can be answered without calling {d42hook} (when {', '.join(cond)[:120] or 'always'}): "
+                         "the built-in it forwards to would have been consulted",
+                         witness="a forwarding custom member accepts/produces something the built-in member does not (e.g. a `...` placeholder)")
         if found is None:
             # was `visit` even called?
             run.violated("DISPATCH-CHAIN", construct, accept.loc,
@@ -142,6 +156,8 @@ def _dispatch_chain(run: Run, prog: Program, model: Model) -> None:
             if not any(k.startswith("**") for k in kw):
                 run.note("KWARGS", construct, e.loc(prog), "extra **kwargs not forwarded (built-ins ignore them as well)")
         # ---- link 3: CustomSchema.__d42_*__ -> user hook
+        if vis == "SubstitutorValidator":
+            continue
         m = custom.methods[d42hook]
         it2 = Interp(prog, model, unroll=1)
         ctx2: Dict[str, V] = {}
@@ -157,28 +173,34 @@ def _dispatch_chain(run: Run, prog: Program, model: Model) -> None:
             return i.call_function(m, [v], kw, self_val=s)
         paths2 = it2.run_paths(run2)
         construct = f"{vis}: CustomSchema.{d42hook} -> {userhook}"
-        found2 = None
+        found_all = []
         for p in paths2:
             for e in p.events:
                 if e.kind == "call" and not e.data.get("resolved") and isinstance(e.data.get("callee"), Term) \
                         and e.data["callee"].op == "getattr":
-                    found2 = (p, e)
-        if found2 is None:
+                    found_all.append((p, e))
+        if not found_all:
             run.violated("DISPATCH-CHAIN", construct, m.loc, f"{d42hook} never calls a user hook",
                          witness="the user's hook is ignored")
             continue
-        p, e = found2
-        hook_name = e.data["callee"].args[1]
-        kw = e.data["kwargs"]
         probs = []
-        if hook_name != userhook:
-            probs.append(f"looks up {hook_name!r}, documented hook is {userhook!r}")
-        if not e.data["args"] or not isinstance(e.data["args"][0], Inst):
-            probs.append("visitor is not passed to the user hook")
-        for n in names:
-            got = kw.get(n)
-            if got is None or got.key() != ctx2[n].key():
-                probs.append(f"`{n}` is not forwarded unchanged (got {got.key()[:50] if got is not None else 'nothing'})")
+        for p, e in found_all:           # EVERY path that reaches the hook must hand it the context
+            hook_name = e.data["callee"].args[1]
+            kw = e.data["kwargs"]
+            if hook_name != userhook:
+                probs.append(f"looks up {hook_name!r}, documented hook is {userhook!r}")
+            if not e.data["args"] or not isinstance(e.data["args"][0], Inst):
+                probs.append("visitor is not passed to the user hook")
+            for n in names:
+                got = kw.get(n)
+                if got is None:
+                    # may travel inside **kwargs after `kwargs[n] = n`
+                    for kk, vv in kw.items():
+                        if kk.startswith("**") and n in vv.key():
+                            got = ctx2[n]
+                if got is None or got.key() != ctx2[n].key():
+                    cond = [("" if b else "not ") + k for k, _, b in p.facts][-1:]
+                    probs.append(f"`{n}` is not forwarded unchanged on the path where {cond[0][:80] if cond else 'the hook is called'}")
         if probs:
             run.violated("DISPATCH-CHAIN", construct, e.loc(prog), "; ".join(probs), witness=_witness(vis, probs))
         else:
@@ -270,4 +292,15 @@ MUTANTS = [
                 "        represent_method = getattr(schema, \"__d42_represent__\", None)\n        if represent_method:\n            return cast(str, represent_method(self, indent=indent, **kwargs))")]},
     {"name": "neutral: is_ellipsis replaced by an explicit type test on the marker", "expect": "SILENT",
      "edits": [("d42/generation/_generator.py", "                if is_ellipsis(elem):\n                    continue", "                if isinstance(elem, type(...)):\n                    continue")]},
+]
+
+MUTANTS += [
+    {"name": "indent forwarded only when the hook's signature names it", "rule": "DISPATCH-CHAIN",
+     "edits": [(CT, "            return cast(str, represent_method(visitor, indent=indent, **kwargs))",
+                "            if \"indent\" in getattr(represent_method, \"__code__\", represent_method).co_varnames:\n                return cast(str, represent_method(visitor, indent=indent, **kwargs))\n            return cast(str, represent_method(visitor, **kwargs))")]},
+]
+
+MUTANTS += [
+    {"name": "SubstitutorValidator answers `...` for custom members itself", "rule": "DISPATCH-CHAIN",
+     "edits": [("d42/substitution/_validator.py", "class SubstitutorValidator(Validator):\n", "class SubstitutorValidator(Validator):\n    def visit(self, schema: Any, *, value: Any = Nil, path: Nilable[PathHolder] = Nil, **kwargs: Any) -> ValidationResult:\n        if is_ellipsis(value):\n            return self._validation_result_factory()\n        return super().visit(schema, value=value, path=path, **kwargs)\n\n")]},
 ]
